@@ -10,6 +10,20 @@ if not os.path.isdir(wt):
     subprocess.check_call(['git', '-C', '/repo', 'worktree', 'add', '-q', '--detach', wt, 'HEAD'])
 prop = [json.loads(l) for l in open('/verif/properties.jsonl') if json.loads(l)['id'] == pid][0]
 extra = sys.argv[3] if len(sys.argv) > 3 else ''
+if tag:
+    try:
+        sites = json.load(open('/verif/tools/first_wave_sites.json')).get(pid, [])
+    except Exception:
+        sites = []
+    if sites:
+        extra = ('Two changes for this property have ALREADY been collected; they sit at:\n' +
+                 ''.join('  - %s\n' % s for s in sites) +
+                 'Do NOT touch those functions again. Choose other mechanisms the guarantee depends on - supporting code counts '
+                 '(helpers in graph_utils.py, molecule.py, utils.py, selectors.py, parser_utils.py, truncating_formatter.py, '
+                 'geometry.py, forcefield.py, system.py, processors that run earlier in the pipeline, or the way bin/martinize2 '
+                 'wires things together). Changes whose effect depends on state left behind by an EARLIER call in the same process '
+                 '(a cache hoisted to module or instance scope, a default argument that is mutated, an object shared instead of copied) '
+                 'or on two sites that each look fine alone are especially welcome.\n' + extra)
 text = """# Task: seed two property-breaking changes
 
 You are working on the Python project vermouth-martinize (Vermouth/Martinize2) in the git
